@@ -590,7 +590,7 @@ func (c *Ctx) isLocalHeadKey(key string) bool {
 			if c.isLogCall(call, "Append") {
 				hasApp = true
 			}
-			if k, ok := c.cachePutKey(call); ok && k == key {
+			if hasKey(c.cachePutKeys(call), key) {
 				hasPut = true
 			}
 		})
